@@ -23,6 +23,7 @@ pub mod c19;
 pub mod c20;
 pub mod model;
 pub mod common;
+pub mod aftermath;
 
 pub fn build(id: &str, tier: &str) -> Option<Check> {
     let quick = crate::engine::tier_is_quick(tier);
